@@ -140,7 +140,7 @@ def tstr(t, depth=0):
     if k == 'closure':
         return 'closure:%s' % t[1].split('::', 1)[-1]
     if k == 'phi':
-        nm = '' if re.match(r'^_\d+$', t[1]) else t[1]
+        nm = '' if re.match(r'^_\d+(\.\w+)*$', t[1]) else t[1]
         return '%s{%s}' % (nm, ' | '.join(sorted(tstr(a, d) for a in t[2])))
     if k == 'repeat':
         return '[%s; %s]' % (tstr(t[1], d), t[2])
@@ -666,6 +666,20 @@ class Body:
                     hit = [a for n, a in ub[3] if n == fname]
                     if hit:
                         base = hit[0]
+                        continue
+                if ub is not None and ub[0] == 'phi':
+                    # field of a value that is one of several struct/tuple literals
+                    alts = []
+                    for alt in ub[2]:
+                        ua = unlet(alt)
+                        hit = [a for n, a in ua[3] if n == fname] if (ua is not None and ua[0] == 'agg' and ua[1] != 'array') else []
+                        if not hit:
+                            alts = None
+                            break
+                        if hit[0] not in alts:
+                            alts.append(hit[0])
+                    if alts:
+                        base = alts[0] if len(alts) == 1 else ('phi', ub[1] + '.' + fname, tuple(alts))
                         continue
                 base = ('field', base, fname)
             elif 'dc' in pr:
